@@ -36,7 +36,7 @@ ASSUMPTIONS = [
 COMPONENTS = {"real": ["dali.device.sequences.*", "dali.device.helpers.check_bad_rsp / DeviceInstanceTypeMapper.autodiscover",
                        "dali.device.general command classes, responses, InstanceEventFilter"],
               "stub": ["bus and control devices (sim/busim.py)", "driver"]}
-PROBES = ["mapper-preloaded-with-stale-entries", "earlier-calls-in-same-process", "filter-24-bit", "filter-16-bit", "filter-8-bit", "filter-plain-int", "stale-dtr", "resolution-not-multiple-of-8",
+PROBES = ["instance-implements-part-of-the-filter", "mapper-preloaded-with-stale-entries", "earlier-calls-in-same-process", "filter-24-bit", "filter-16-bit", "filter-8-bit", "filter-plain-int", "stale-dtr", "resolution-not-multiple-of-8",
           "resolution-over-24", "sensor-changed-between-reads", "scheme-invalid", "scan-collision", "scan-reset-state",
           "scan-disabled-instance", "scan-fault", "answer-dropped", "answer-garbled", "scan-64-devices"]
 
@@ -84,6 +84,15 @@ def gen_plan(seed, tier="quick"):
             "dtr": [r.randrange(256) for _ in range(3)], "addr": r.randrange(64), "inst": r.randrange(32)}
     if r.random() < 0.3:
         plan["fault"] = [r.randrange(0, 10 if kind != "scan" else 60), r.choice(["drop", "garble", "garble", "garble-same"])]
+    mf = plans.rng_for(seed, PROP + "-burst")
+    if kind == "scan" and plan["fault"] and mf.random() < 0.4:
+        # a bad stretch on the bus: several answers in a row (or every other one) lost or garbled - each
+        # costs the item it concerns and nothing else
+        at, extra = plan["fault"][0], []
+        for _ in range(mf.randrange(1, 7)):
+            at += mf.choice([1, 1, 2, 2, 3])
+            extra.append([at, mf.choice(["drop", "garble", "garble-same"])])
+        plan["more_faults"] = extra
     if kind == "input":
         res_ = r.choice([1, 2, 7, 8, 9, 10, 12, 15, 16, 17, 20, 23, 24, 25, 31, 32, r.randrange(1, 33)])
         plan["resolution"] = res_
@@ -111,6 +120,11 @@ def gen_plan(seed, tier="quick"):
             plan["filter"] = r.getrandbits(24) & _bits_of(cls)
             plan["itype"] = itype
         plan["old_filter"] = r.getrandbits(24)
+        pm = plans.rng_for(seed, PROP + "-partial")
+        if kind == "setfilter" and pm.random() < 0.3:
+            # an instance that implements only some of the filter bits: what it reports back differs
+            # from what was asked for, and the sequence returns what the unit reports
+            plan["impl_mask"] = pm.choice([pm.getrandbits(24), 0x00FFFF, 0x03FF0F, 0xFF00FF, 0x0000FF, 0])
     elif kind == "scheme":
         plan["scheme"] = r.choice([0, 1, 2, 3, 4, 0, 1, 2, 3, 4, 5, 255, -1])
         plan["old_scheme"] = r.randrange(5)
@@ -159,6 +173,8 @@ def run_plan(plan):
         vs.append(Violation(PROP, clause, detail, driver=kind, site=site))
 
     faults = {plan["fault"][0]: plan["fault"][1]} if plan["fault"] else {}
+    for fi_, fk_ in plan.get("more_faults") or []:
+        faults.setdefault(fi_, fk_)
     dev_addr, inst_no = plan["addr"], plan["inst"]
     bystander = busim.Device(short=(dev_addr + 1) % 64,
                              instances=[busim.Instance(itype=1) for _ in range(inst_no + 1)], name="B")
@@ -229,6 +245,9 @@ def run_plan(plan):
         d = _device(plan, itype=plan["itype"], filt=plan["old_filter"] & ((1 << width) - 1))
         bus = busim.Bus([d, bystander])
         inst = d.instances[inst_no]
+        if plan.get("impl_mask") is not None:
+            inst.filter_impl = plan["impl_mask"]
+            probes["instance-implements-part-of-the-filter"] = 1
         if kind == "setfilter":
             gen = SetEventFilters(DeviceShort(dev_addr), InstanceNumber(inst_no), fval)
         else:
@@ -237,7 +256,7 @@ def run_plan(plan):
             gen = QueryEventFilters(dev_addr, inst_no, qcls)
         sr = busim.run_sequence(gen, bus, answer_faults=faults, cap=40, log=log)
         fired = [c for c in sr.commands if c[4]]
-        want = plan["filter"] & ((1 << width) - 1)
+        want = plan["filter"] & ((1 << width) - 1) & (plan["impl_mask"] if plan.get("impl_mask") is not None else 0xFFFFFF)
         if sr.status == "raise" and not isinstance(sr.exc, DALISequenceError):
             V("unexpected-exception", "%s(%s %#x): %r" % (kind, fam, plan["filter"], sr.exc), site=type(sr.exc).__name__)
         elif sr.status == "cap":
@@ -424,9 +443,13 @@ def run_seed(seed, tier):
 
 
 def shrink(plan):
-    if plan["fault"]:
+    if plan["fault"] and not plan.get("more_faults"):
         p = copy.deepcopy(plan)
         p["fault"] = None
+        yield p
+    for i in range(len(plan.get("more_faults") or [])):
+        p = copy.deepcopy(plan)
+        del p["more_faults"][i]
         yield p
     if plan.get("devices"):
         for i in range(len(plan["devices"])):
